@@ -89,7 +89,8 @@ def run(spec_path, cfg_path, *, workers=8, timeout=900, dump=False, scratch=None
         scratch = tempfile.mkdtemp(prefix="verif-tlc-")
     os.makedirs(scratch, exist_ok=True)
     meta = tempfile.mkdtemp(prefix="meta-", dir=scratch)
-    props = ["-DTLA-Library=" + os.pathsep.join(_module_dirs(spec_path))]
+    # (TLC leaves an empty tlc-<n> directory in java.io.tmpdir per run: keep it inside the scratch directory)
+    props = ["-DTLA-Library=" + os.pathsep.join(_module_dirs(spec_path)), "-Djava.io.tmpdir=" + meta]
     if dfs:
         props.append("-Dtlc2.tool.queue.IStateQueue=StateDeque")
     if heap:
